@@ -1937,9 +1937,14 @@ class GitClient:
                 assert self._report_status_parser
                 for pkt in proto.read_pkt_seq():
                     self._report_status_parser.handle_packet(pkt)
-        if self._report_status_parser is not None:
+        if (
+            CAPABILITY_REPORT_STATUS in capabilities
+            and self._report_status_parser is not None
+        ):
             return dict(self._report_status_parser.check())
 
+        # (no report in this exchange: a parser left over from an earlier
+        # push of this client says nothing about it)
         return None
 
     def _negotiate_upload_pack_capabilities(
